@@ -12,11 +12,40 @@ HEX = "0123456789abcdef"
 
 
 def hx(t):
-    return t.encode("latin-1").hex()
+    """text travels to the driver as the hex of its UTF-8 encoding and is decoded there to code points (lossless)"""
+    return t.encode("utf-8").hex()
 
 
 def unhx(h):
-    return bytes.fromhex(h).decode("latin-1")
+    return bytes.fromhex(h).decode("utf-8")
+
+
+# characters Python's int() / str.isdigit() / isalnum() / strip() treat leniently, by the ASCII character they imitate
+UNI_DIGIT = lambda d: [chr(0x660 + d), chr(0x6f0 + d), chr(0x966 + d), chr(0xff10 + d), chr(0x1d7ce + d)]   # Nd: Arabic-Indic, ext., Devanagari, fullwidth, math bold
+UNI_SUPER = {1: "\u00b9", 2: "\u00b2", 3: "\u00b3", 0: "\u2070", 4: "\u2074", 5: "\u2075", 6: "\u2076", 7: "\u2077", 8: "\u2078", 9: "\u2079"}   # isdigit(), not decimal
+UNI_OTHERNUM = ["\u2460", "\u2167", "\u00bd", "\u0bf0", "\u3007"]        # circled 1, roman VIII, one half, Tamil ten, ideographic zero
+UNI_SPACE = ["\u00a0", "\u2003", "\u3000", "\u2028", "\u1680", "\x85", "\x1c", "\x1f", "\u200b", "\ufeff"]
+UNI_MARK = ["\u0301", "\u20e3", "\u200d"]                                   # combining acute, keycap, zero-width joiner
+UNI_PUNCT = {":": ["\uff1a", "\u02d0"], ".": ["\uff0e", "\u3002", "\u066b"], "/": ["\uff0f", "\u2215"], "-": ["\uff0d", "\u2010", "\u2212"], "|": ["\uff5c"]}
+
+
+def uni_lookalikes(c):
+    if c in "0123456789":
+        d = int(c); return UNI_DIGIT(d) + [UNI_SUPER[d]]
+    if c in "abcdefABCDEF":
+        return [chr(0xff41 + ord(c.lower()) - 97), chr(0xff21 + ord(c.upper()) - 65), chr(0x1d41a + ord(c.lower()) - 97)]
+    return UNI_PUNCT.get(c, [])
+
+
+def uni_variants(t):
+    """every single-position non-ASCII variant of a valid text: each character replaced by each of its look-alikes, and each
+    lenient space / mark / other-number character inserted at each position (so in every field, first and last place)"""
+    out = []
+    for i, c in enumerate(t):
+        for u in uni_lookalikes(c): out.append(t[:i] + u + t[i + 1:])
+    for i in range(len(t) + 1):
+        for u in UNI_SPACE + UNI_MARK + UNI_OTHERNUM[:2]: out.append(t[:i] + u + t[i:])
+    return out
 
 
 # ----------------------------------------------------------------------------- independent references
@@ -70,6 +99,7 @@ def contiguous_bits(v, w):
 
 def ip6_class(t):
     """structural class of a malformed IPv6 text (for finding keys)"""
+    if not t.isascii(): return "non-ascii"
     head = t
     if "." in t:
         head, _, tail = t.rpartition(":")
@@ -104,6 +134,7 @@ def int_lenient(s):
 
 
 def ip4_class(t):
+    if not t.isascii(): return "non-ascii"
     if t.count(".") < 3 and re.fullmatch(r"[0-9.]+", t): return "short-form"
     if re.search(r"(^|\.)0[0-9xX]", t): return "octal-or-hex"
     if any(c in WS for c in t): return "trailing-junk"
@@ -112,7 +143,10 @@ def ip4_class(t):
 
 # the text forms of an Ethernet address EthAddr documents (6 raw bytes, 12 hex digits, xx:xx:.. / xx-xx-.. , x:x:..)
 def ref_eth(t):
-    if len(t) == 6 and t.isascii(): return t.encode("latin-1")
+    """on the UTF-8 encoding of the text (EthAddr encodes a str first): six bytes are six raw bytes whatever they are"""
+    b = t.encode("utf-8")
+    if len(b) == 6: return b
+    if not t.isascii(): return None
     if re.fullmatch(r"[0-9a-fA-F]{12}", t): return bytes.fromhex(t)
     for sep in ":-":
         if re.fullmatch(r"[0-9a-fA-F]{2}(%s[0-9a-fA-F]{2}){5}" % re.escape(sep), t):
@@ -123,6 +157,7 @@ def ref_eth(t):
 
 
 def eth_class(t):
+    if not t.isascii(): return "non-ascii"
     if int_lenient(t): return "int-leniency"
     if re.fullmatch(r"[0-9a-fA-F:]+", t) and any(len(x) > 2 for x in t.split(":")): return "long-group"
     return "other"
@@ -328,8 +363,13 @@ class C16(Check):
         return outs
 
     def mutate(self, rng, t, alphabet):
-        k = rng.randrange(9)
+        k = rng.randrange(11)
         i = rng.randrange(len(t) + 1)
+        if k >= 9 and t:                                                                 # a non-ASCII look-alike / space / mark
+            j = min(i, len(t) - 1)
+            la = uni_lookalikes(t[j])
+            if la and rng.random() < 0.6: return t[:j] + rng.choice(la) + t[j + 1:]
+            return t[:i] + rng.choice(UNI_SPACE + UNI_MARK + UNI_OTHERNUM) + t[i:]
         if k == 0 and t: return t[:i] + t[i + 1:]                                       # delete
         if k == 1: return t[:i] + rng.choice(alphabet) + t[i:]                           # insert
         if k == 2 and t: i = min(i, len(t) - 1); return t[:i] + rng.choice(alphabet) + t[i + 1:]   # replace
@@ -457,6 +497,51 @@ class C16(Check):
         for vals in ([1, 2, 3, 4, 5, 6], [0] * 6, [255] * 6, [1, 2, 3], [], [1, 2, 3, 4, 5, 6, 7], [1, 2, 3, 4, 5, 256], [-1, 2, 3, 4, 5, 6]):
             for kind in ("list", "tuple"): c.append({"op": "eth_seq", "kind": kind, "vals": vals})
         c.append({"op": "eth_seq", "kind": "bytearray", "vals": [1, 2, 3, 4, 5, 6]}); c.append({"op": "eth_seq", "kind": "bytearray", "vals": [1, 2]})
+        # --- non-ASCII look-alikes: every position of representative valid texts (str form, and UTF-8 bytes form where the API takes bytes)
+        for t in ["10.20.30.40", "0.0.0.0", "255.1.2.199"]:
+            for u in uni_variants(t):
+                c.append({"op": "ip4_text", "t": u}); c.append({"op": "ip4_text", "t": u, "bytes": True})
+        for t in ["2001:db8::8a2e:370:7334", "::ffff:1.2.3.4", "1:2:3:4:5:6:7:8", "fe80::1", "A:B:C:D:E:F:1.2.3.40"]:
+            for u in uni_variants(t): c.append({"op": "ip6_text", "t": u})
+        for t in ["01:23:45:67:89:ab", "0123456789AB", "1:2:3:4:5:6", "01-23-45-67-89-ab"]:
+            for u in uni_variants(t):
+                c.append({"op": "eth_text", "t": u}); c.append({"op": "eth_text", "t": u, "bytes": True})
+        for t in ["10.0.0.0/8", "10.0.0.0/255.0.0.0", "192.168.1.0"]:
+            for u in uni_variants(t):
+                c.append({"op": "ip4_parse_cidr", "t": u, "infer": True, "allow_host": False})
+                c.append({"op": "ip4_innet_text", "a": self.r4(0x0a010203), "net": u})
+        for t in ["fe80::/10", "fe80::/ffc0::"]:
+            for u in uni_variants(t):
+                c.append({"op": "ip6_parse_cidr", "t": u, "allow_host": False})
+                c.append({"op": "ip6_innet_text", "a": "fe80" + "00" * 13 + "01", "net": u})
+        for u in uni_variants("24") + uni_variants("255.255.0.0"): c.append({"op": "ip4_getnet", "a": self.r4(0xc0a80a5a), "arg": u})
+        # --- call sequences: every result must be independent of what was called before (the model is stateless)
+        FL = [(i, ah) for i in (True, False, 0) for ah in (True, False)]
+        pc = lambda t, i, ah: {"op": "ip4_parse_cidr", "t": t, "infer": i, "allow_host": ah}
+        for t in ["10.1.2.3/8", "10.0.0.0/8", "10.1.2.3/255.0.0.0", "10.0.0.0/255.0.0.0", "0.0.0.1/0", "255.255.255.255/0", "255.255.255.255/24",
+                  "10.0.0.0", "10.1.2.3", "192.168.1.0", "192.168.1.1", "10.1.2.3/33", "10.1.2.3/8/9"]:
+            for f1 in FL:
+                for f2 in FL:
+                    c.append({"op": "calls", "calls": [pc(t, *f1), pc(t, *f2)]})
+            for i in (True, False, 0):
+                c.append({"op": "calls", "calls": [pc(t, i, False), pc(t, i, True), pc(t, i, False), pc(t, i, True)]})
+                c.append({"op": "calls", "calls": [pc(t, i, True), {"op": "ip4_innet_text", "a": self.r4(0x0a010203), "net": t}, pc(t, i, False)]})
+        for n in ("0", "8", "24", "31", "32", "255.255.0.0", "255.0.255.0", "33"):
+            t = "255.255.255.255/" + n
+            g = {"op": "ip4_getnet", "a": self.r4(0xc0a80a5a), "arg": n}
+            inn = {"op": "ip4_innet_text", "a": self.r4(0xffffffff), "net": t}
+            for seq in ([g, pc(t, True, False), inn], [pc(t, True, False), g, pc(t, True, False), inn, g], [inn, g, inn],
+                        [{"op": "ip4_mask", "bits": 24}, g, {"op": "ip4_nm2cidr", "raw": self.r4(0xffff0000)}, pc(t, False, False), g]):
+                c.append({"op": "calls", "calls": seq})
+        pc6 = lambda t, ah: {"op": "ip6_parse_cidr", "t": t, "allow_host": ah}
+        for t in ["fe80::1/10", "fe80::/10", "fe80::1/ffc0::", "fe80::/ffc0::", "::1/0", "fe80::1", "fe80::1/129"]:
+            for a1 in (True, False):
+                for a2 in (True, False):
+                    c.append({"op": "calls", "calls": [pc6(t, a1), pc6(t, a2), {"op": "ip6_innet_text", "a": "fe80" + "00" * 13 + "01", "net": t}, pc6(t, a1)]})
+        for sub in ({"op": "ip4_text", "t": "10.1.2.3"}, {"op": "ip4_text", "t": "10.1"}, {"op": "ip6_text", "t": "fe80::1"}, {"op": "ip6_text", "t": "1:2:3"},
+                    {"op": "eth_text", "t": "1:2:3:4:5:6"}, {"op": "eth_text", "t": "100:0:0:0:0:0"}, {"op": "ip6_str", "raw": "fe80" + "00" * 13 + "01"},
+                    {"op": "dpid_str", "d": 0x0001020304050607, "long": False}):
+            c.append({"op": "calls", "calls": [sub, sub, sub]})
         # --- dpids
         for d in [0, 1, 0xff, 0x100, 0xffffffffffff, 0x1000000000000, 0x1000000000001, 0xffff000000000000, 0xffffffffffffffff,
                   0x7fffffffffffffff, 0x8000000000000000, 0x0001020304050607, 0x00ab000000000000, 2 ** 64, 2 ** 64 + 1]:
@@ -556,6 +641,33 @@ class C16(Check):
             vals = [rng.choice([rng.randrange(256), rng.randrange(256), 255, 0, rng.randrange(-3, 260)]) for _ in range(n)]
             kind = rng.choice(["list", "tuple", "bytearray"]) if all(0 <= v < 256 for v in vals) else rng.choice(["list", "tuple"])
             yield {"op": "eth_seq", "kind": kind, "vals": vals}
+        # call sequences on a small pool of texts, so that the same text comes back with other flags
+        for _ in range(R(250, 6000)):
+            a = rng.getrandbits(32); b = rng.randrange(33)
+            n = a & ~((1 << (32 - b)) - 1)
+            q = lambda v: ".".join(map(str, (v & 0xffffffff).to_bytes(4, "big")))
+            msk = q(((1 << b) - 1) << (32 - b))
+            pool = [q(a) + "/%d" % b, q(n) + "/%d" % b, q(a) + "/" + msk, q(n) + "/" + msk, q(a), q(n), "255.255.255.255/%d" % b, "255.255.255.255/" + msk]
+            calls = []
+            for _ in range(rng.randrange(2, 9)):
+                k = rng.randrange(6); t = rng.choice(pool)
+                if k <= 2: calls.append({"op": "ip4_parse_cidr", "t": t, "infer": rng.choice([True, False, 0]), "allow_host": rng.random() < 0.5})
+                elif k == 3: calls.append({"op": "ip4_innet_text", "a": self.r4(rng.choice([a, n])), "net": t})
+                elif k == 4: calls.append({"op": "ip4_getnet", "a": self.r4(a), "arg": rng.choice([str(b), msk])})
+                else: calls.append(rng.choice([{"op": "ip4_mask", "bits": b}, {"op": "ip4_nm2cidr", "raw": self.r4(((1 << b) - 1) << (32 - b))},
+                                               {"op": "ip4_innet", "n": self.r4(n), "b": b, "as": [self.r4(a)]}]))
+            yield {"op": "calls", "calls": calls}
+        for _ in range(R(80, 1500)):
+            raw = self.rand6(rng); b = rng.randrange(129)
+            n = (int.from_bytes(raw, "big") & ~((1 << (128 - b)) - 1)).to_bytes(16, "big")
+            mt = rfc5952((((1 << b) - 1) << (128 - b)).to_bytes(16, "big"))
+            pool = [rfc5952(raw) + "/%d" % b, rfc5952(n) + "/%d" % b, rfc5952(raw) + "/" + mt, rfc5952(n) + "/" + mt, rfc5952(raw)]
+            calls = []
+            for _ in range(rng.randrange(2, 7)):
+                t = rng.choice(pool)
+                calls.append({"op": "ip6_parse_cidr", "t": t, "allow_host": rng.random() < 0.5} if rng.random() < 0.7 or "/" not in t
+                             else {"op": "ip6_innet_text", "a": raw.hex(), "net": t})
+            yield {"op": "calls", "calls": calls}
         # dpids: boundaries + random
         for _ in range(R(600, 15000)):
             d = rng.choice([rng.getrandbits(64), rng.getrandbits(48), rng.getrandbits(16) << 48, (1 << rng.randrange(65)) - rng.randrange(2),
@@ -665,6 +777,11 @@ class C16(Check):
         for nm, x in (("ip4", a4), ("ip6", a6), ("eth", ae)):
             ok[nm + "_foreign_eq"] = (x == object()) is False and (x != object()) is True and (x == "no such address") is False
             ok[nm + "_foreign_lt"] = raises(lambda: x < object(), TypeError)
+        # the data-model rule `a == b  =>  hash(a) == hash(b)` for the foreign objects the classes choose to compare equal to
+        for nm, x, others in (("ip4", a4, [str(a4), a4.toUnsigned(), r4]), ("ip6", a6, [str(a6)]), ("eth", ae, [str(ae), re_])):
+            for o in others:
+                if x == o and hash(x) != hash(o):
+                    ok["mixed-eq:hash-differs"] = "%s == %s but the hashes differ" % (nm, type(o).__name__)
         return ok
 
     def _ip4view(self, x):
@@ -677,7 +794,7 @@ class C16(Check):
         self.stats[op] = self.stats.get(op, 0) + 1
         try:
             if op in ("ip4_text", "ip4_raw", "ip4_int"):
-                if op == "ip4_text": x = A.IPAddr(case["t"])
+                if op == "ip4_text": x = A.IPAddr(case["t"].encode("utf-8") if case.get("bytes") else case["t"])
                 elif op == "ip4_raw": x = A.IPAddr(bytes.fromhex(case["raw"]))
                 else: x = A.IPAddr(case["n"], networkOrder=case["order"])
                 v = self._ip4view(x)
@@ -714,7 +831,7 @@ class C16(Check):
                 return {"view": {"addr": n.raw.hex(), "bits": b}}
             if op == "ip4_getnet":
                 arg = case["arg"]
-                n, b = A.IPAddr(bytes.fromhex(case["a"])).get_network(int(arg) if arg.isdigit() else arg)
+                n, b = A.IPAddr(bytes.fromhex(case["a"])).get_network(int(arg) if (arg.isascii() and arg.isdigit()) else arg)
                 return {"view": {"addr": n.raw.hex(), "bits": b}}
             if op == "ip4_infer":
                 return {"view": {"bits": A.infer_netmask(A.IPAddr(bytes.fromhex(case["a"])))}}
@@ -751,10 +868,12 @@ class C16(Check):
             if op == "ip6_innet_text":
                 a = A.IPAddr6(bytes.fromhex(case["a"]), raw=True)
                 r = a.in_network(case["net"])
-                nn, mm = case["net"].split("/", 1)
-                try: two = a.in_network(nn, mm)
-                except Exception as e: two = "exc:" + type(e).__name__
-                return {"view": {"in": r}, "extra": {"two_arg": two}}
+                ex = {}
+                if "/" in case["net"]:
+                    nn, mm = case["net"].split("/", 1)
+                    try: ex["two_arg"] = a.in_network(nn, mm)
+                    except Exception as e: ex["two_arg"] = "exc:" + type(e).__name__
+                return {"view": {"in": r}, "extra": ex}
             if op == "ip6_parse_cidr":
                 n, b = A.IPAddr6.parse_cidr(case["t"], allow_host=case["allow_host"])
                 return {"view": {"addr": n.raw.hex(), "bits": b}}
@@ -764,7 +883,7 @@ class C16(Check):
                 return {"view": {"eq": a == b, "lt": a < b, "gt": a > b},
                         "extra": {"ne": a != b, "le": a <= b, "ge": a >= b, "hash_eq": hash(a) == hash(b), "eq_text": a == str(b), "lt_text": a < str(b)}}
             if op == "eth_text":
-                x = A.EthAddr(case["t"])
+                x = A.EthAddr(case["t"].encode("utf-8") if case.get("bytes") else case["t"])
                 ex = self._extras(x, A.EthAddr, str(x))
                 ex["from_tuple"] = A.EthAddr(x.toTuple()).raw.hex(); ex["from_list"] = A.EthAddr(list(x.raw)).raw.hex(); ex["copy"] = A.EthAddr(x).raw.hex()
                 ex["from_bare"] = A.EthAddr(x.to_str("")).raw.hex() if False else A.EthAddr("".join("%02x" % b for b in x.raw)).raw.hex()
@@ -783,6 +902,10 @@ class C16(Check):
                 return {"view": {"v": int(case["t"], case["base"])}}
             if op == "misc":
                 return {"view": {}, "extra": self._misc(case)}
+            if op == "calls":
+                # one Python process, one call after the other: no result may depend on what was called before
+                subs = [self.impl(c) for c in case["calls"]]
+                return {"view": {"results": [o["view"] for o in subs]}, "extra": {"subs": subs}}
         except Exception as e:
             return {"view": excname(e)}
         raise ValueError("unknown op " + op)
@@ -791,17 +914,27 @@ class C16(Check):
     TEXT_KEYS = ("t", "net", "arg")
     def model_request(self, case):
         if case["op"] == "misc": return None
+        if case["op"] == "calls":
+            subs = [self.model_request(c) for c in case["calls"]]
+            return None if any(x is None for x in subs) else {"calls": subs}
         r = {}
         for k, v in case.items():
             if k in self.TEXT_KEYS:
-                if any(ord(ch) > 127 for ch in v): return None
+                # int() itself (ops `int`, `dpid_parse`) is modelled for ASCII text only; every address parser is modelled on code points
+                if case["op"] in ("int", "dpid_parse") and not v.isascii(): return None
                 r[k] = hx(v)
+            elif k == "infer":
+                r[k] = v is not False                      # the code tests `infer is False`: 0 is not False
+            elif k == "bytes":
+                pass                                       # IPAddr(bytes text) / EthAddr(bytes text): the same text, UTF-8 encoded by the caller
             elif k != "kind" or case["op"] == "eth_seq":
                 r[k] = v
         r["var"] = [self.variant["ip6"], self.variant["eth"], self.variant["cidr"], self.variant["seq"]]
         return r
 
     def model_obs(self, case, resp):
+        if case["op"] == "calls" and "results" in resp:
+            return {"results": [self.model_obs(c, r) for c, r in zip(case["calls"], resp["results"])]}
         if "error" in resp: return resp
         if "exc" in resp: return self._norm_exc(case, resp)
         out = {}
@@ -812,12 +945,14 @@ class C16(Check):
         return out
 
     def impl_view(self, case, obs):
+        if case["op"] == "calls":
+            return {"results": [self.impl_view(c, o) for c, o in zip(case["calls"], obs["extra"]["subs"])]}
         return self._norm_exc(case, obs["view"])
 
     def _norm_exc(self, case, view):
         """libc's inet_aton accepts non-canonical quads (octal, short forms, trailing junk): when such a component is present and the
         whole input is rejected, which check rejects it first depends on libc; compare only the fact of rejection."""
-        if "exc" in view:
+        if "exc" in view and not self.variant["ip4"]:
             for k in self.TEXT_KEYS:
                 if k in case:
                     for part in case[k].split("/"):
@@ -911,7 +1046,7 @@ class C16(Check):
         if op in ("ip4_parse_cidr", "ip6_parse_cidr", "ip4_innet_text", "ip6_innet_text", "ip4_getnet"):
             six = op.startswith("ip6")
             t = case["t"] if "t" in case else (case["net"] if "net" in case else "255.255.255.255/" + case["arg"])
-            want = self.ref_cidr(t, six, case.get("infer", True) if not six else False,
+            want = self.ref_cidr(t, six, (case.get("infer", True) is not False) if not six else False,
                                  True if op == "ip4_getnet" else case.get("allow_host", False))
             if isinstance(want, str):
                 if rejected: return None
@@ -1008,6 +1143,13 @@ class C16(Check):
         if op == "misc":
             bad = sorted(k for k, val in ex.items() if val is not True)
             return ("misc:" + bad[0]) if bad else None
+        if op == "calls":
+            # each call judged as if it were the only one: the reference is stateless
+            for i, (c, o) in enumerate(zip(case["calls"], ex["subs"])):
+                f = self.oracle(c, o)
+                if f is not None:
+                    return f if re.match(r"(ip4|ip6|eth)-(text|cidr|mask|seq):", f) else "call %d of %d (%s): %s" % (i + 1, len(case["calls"]), c["op"], f)
+            return None
         return None                                                 # dpid_parse / int: model correspondence only
 
     def ref_cidr(self, t, six, infer, allow_host):
@@ -1039,13 +1181,20 @@ class C16(Check):
 
     def finding_key(self, case, obs, failure):
         if re.match(r"(ip4|ip6|eth)-(text|cidr|mask|seq):", failure) or failure.startswith("immutable:"): return failure
-        if failure.startswith("misc:"): return failure[5:] if failure.startswith("misc:ip6-ctor:") else failure
+        if case["op"] == "calls" and failure.startswith("call "):
+            return "calls:" + failure.split("): ", 1)[1].split(":")[0][:40]
+        if failure.startswith("misc:"): return failure[5:] if failure.startswith(("misc:ip6-ctor:", "misc:mixed-eq:")) else failure
         return "%s:%s" % (case["op"], failure.split(":")[0][:40])
 
     def nontrivial(self, case, obs):
         return True
 
     def shrink_candidates(self, case):
+        if case.get("op") == "calls":
+            if len(case["calls"]) > 1:
+                for i in range(len(case["calls"])):
+                    c = dict(case); c["calls"] = case["calls"][:i] + case["calls"][i + 1:]; yield c
+            return
         if "as" in case and len(case["as"]) > 1:
             for i in range(len(case["as"])):
                 c = dict(case); c["as"] = case["as"][:i] + case["as"][i + 1:]; yield c
